@@ -165,86 +165,77 @@ Theorem C07_dhcp_reply_wellformed : forall c dm di p junk,
 Proof. exact dhcp_reply_wf. Qed.
 Print Assumptions C07_dhcp_reply_wellformed.
 
-(* decline / release: the message EncodeDHCP4 built is carried unchanged host:68 -> router:67
-   (partial: well-formedness of the DHCP message itself is established by the correspondence only) *)
-Theorem C07_decline_release_partial : forall c ch ci xid opts junk1 junk2 d,
+(* decline / release: the message EncodeDHCP4 built is carried unchanged host:68 -> router:67 (frame level) *)
+Theorem C07_decline_release_frame : forall c ch ci xid opts junk1 junk2 d,
   mac_ok (host_mac c) -> ip4_ok (host_ip4 c) -> mac_ok (router_mac c) -> ip4_ok (router_ip4 c) ->
   enc_dhcp4 junk1 1 ch ci ipv4zero (Some xid) false opts = Some d ->
   bytes_ok d -> (length d <= 1480)%nat -> length junk2 = EthMaxSize ->
   exists fr, send_decline_release c ch ci xid opts junk1 junk2 = Ok [fr] /\
     wf_udp4 (host_mac c) (router_mac c) (host_ip4 c) (router_ip4 c) 68 67 (beq d) false fr = true.
 Proof. exact decline_release_carried. Qed.
-Print Assumptions C07_decline_release_partial.
+Print Assumptions C07_decline_release_frame.
 
-(* NBNS: Ethernet source is the caller's MAC (finding nbns-ether-src-is-caller-mac) *)
-Theorem C07_nbns_wellformed_refuted :
-  exists c sm si dm di sq name junk fr,
-    mac_ok (host_mac c) /\ mac_ok sm /\ ip4_ok si /\ mac_ok dm /\ ip4_ok di /\ length junk = EthMaxSize /\
-    send_nbns_query (sm, si) (dm, di) sq name junk = Ok [fr] /\
-    wf_udp4 (host_mac c) dm si di 137 137 (wf_dns_query (Some sq) [nb_label name] 32 1) false fr = false /\
-    wf_udp4 sm dm si di 137 137 (wf_dns_query (Some sq) [nb_label name] 32 1) false fr = true.
-Proof. exact nbns_refuted. Qed.
-Print Assumptions C07_nbns_wellformed_refuted.
-
-Theorem C07_nbns_wellformed_partial : forall c si dm di p junk,
+(* NBNS (Ethernet source = NIC MAC since fix 0948ecc): any payload, any caller addresses *)
+Theorem C07_nbns_wellformed : forall c sm si dm di p junk,
   mac_ok (host_mac c) -> ip4_ok si -> mac_ok dm -> ip4_ok di ->
   bytes_ok p -> (length p <= 1480)%nat -> length junk = EthMaxSize ->
-  exists fr, send_nbns (host_mac c, si) (dm, di) p junk = Ok [fr] /\
+  exists fr, send_nbns c (sm, si) (dm, di) p junk = Ok [fr] /\
     wf_udp4 (host_mac c) dm si di 137 137 (beq p) false fr = true.
-Proof. exact nbns_outside_known. Qed.
-Print Assumptions C07_nbns_wellformed_partial.
+Proof. exact nbns_wf. Qed.
+Print Assumptions C07_nbns_wellformed.
 
-(* SSDP *)
-Theorem C07_ssdp_wellformed_refuted :
-  exists c junk fr, mac_ok (host_mac c) /\ ip4_ok (host_ip4 c) /\ length junk = EthMaxSize /\
-    send_ssdp_search c junk = Ok [fr] /\
-    wf_udp4 (host_mac c) (mac_of_mcast4 [239;255;255;250]) (host_ip4 c) [239;255;255;250] 1900 1900 wf_msearch true fr = false.
-Proof. exact ssdp_refuted. Qed.
-Print Assumptions C07_ssdp_wellformed_refuted.
-
-Theorem C07_ssdp_wellformed_partial : forall c junk,
+(* SSDP M-SEARCH (CRLF text since f7b029e, 01:00:5e:7f:ff:fa since df36fdf) *)
+Theorem C07_ssdp_wellformed : forall c junk,
   mac_ok (host_mac c) -> ip4_ok (host_ip4 c) -> length junk = EthMaxSize ->
   exists fr, send_ssdp_search c junk = Ok [fr] /\
-    wf_udp4 (host_mac c) eth_bcast (host_ip4 c) [239;255;255;250] 1900 1900 (beq ascii_msearch) false fr = true.
-Proof. exact ssdp_partial. Qed.
-Print Assumptions C07_ssdp_wellformed_partial.
+    wf_udp4 (host_mac c) (mac_of_mcast4 [239;255;255;250]) (host_ip4 c) [239;255;255;250] 1900 1900 wf_msearch true fr = true.
+Proof. exact ssdp_wf. Qed.
+Print Assumptions C07_ssdp_wellformed.
 
-(* mDNS / LLMNR *)
-Theorem C07_mdns_query_wellformed_refuted :
-  exists c name fr, mac_ok (host_mac c) /\ ip4_ok (host_ip4 c) /\
-    send_mdns_query c name = Ok [fr] /\
-    wf_udp4 (host_mac c) (mac_of_mcast4 [224;0;0;251]) (host_ip4 c) [224;0;0;251] 5353 5353
-      (wf_dns_query None (split_dots name []) 255 255) true fr = false /\
-    wf_udp4 (host_mac c) eth_bcast (host_ip4 c) [224;0;0;251] 5353 5353
-      (wf_dns_query None (split_dots name []) 255 255) false fr = true.
-Proof. exact mdns_query_refuted. Qed.
-Print Assumptions C07_mdns_query_wellformed_refuted.
-
-Theorem C07_mdns_query_wellformed_partial : forall c name,
+(* mDNS / LLMNR queries: frame level (group address, multicast MAC since df36fdf, LLMNR group and PTR type
+   since fcbed9b); the question bytes are handled by C07_mdns_query_wellformed below *)
+Theorem C07_mdns_query_frame : forall c name,
   mac_ok (host_mac c) -> ip4_ok (host_ip4 c) -> bytes_ok (dns_name name) -> (length (dns_name name) <= 1400)%nat ->
   exists fr, send_mdns_query c name = Ok [fr] /\
-    wf_udp4 (host_mac c) eth_bcast (host_ip4 c) [224;0;0;251] 5353 5353
-      (beq (dns_query 0 0 (dns_name name) 255 255)) false fr = true.
-Proof. exact mdns_query_partial. Qed.
-Print Assumptions C07_mdns_query_wellformed_partial.
+    wf_udp4 (host_mac c) (mac_of_mcast4 [224;0;0;251]) (host_ip4 c) [224;0;0;251] 5353 5353
+      (beq (dns_query 0 0 (dns_name name) 255 255)) true fr = true.
+Proof. exact mdns_query_frame. Qed.
+Print Assumptions C07_mdns_query_frame.
 
-Theorem C07_llmnr_query_wellformed_refuted :
-  exists c name fr, mac_ok (host_mac c) /\ ip4_ok (host_ip4 c) /\
-    send_llmnr_query c name = Ok [fr] /\
+Theorem C07_llmnr_query_frame : forall c name,
+  mac_ok (host_mac c) -> ip4_ok (host_ip4 c) -> bytes_ok (dns_name name) -> (length (dns_name name) <= 1400)%nat ->
+  exists fr, send_llmnr_query c name = Ok [fr] /\
     wf_udp4 (host_mac c) (mac_of_mcast4 [224;0;0;252]) (host_ip4 c) [224;0;0;252] 5355 5355
-      (wf_dns_query None (split_dots name []) 255 255) true fr = false /\
-    wf_udp4 (host_mac c) eth_bcast (host_ip4 c) [224;0;0;251] 5355 5355
-      (wf_dns_query None (split_dots name []) 255 255) false fr = true.
-Proof. exact llmnr_query_refuted. Qed.
-Print Assumptions C07_llmnr_query_wellformed_refuted.
+      (beq (dns_query 0 0 (dns_name name) 12 255)) true fr = true.
+Proof. exact llmnr_query_frame. Qed.
+Print Assumptions C07_llmnr_query_frame.
 
-Theorem C07_mdns_ip4_branch_partial : forall c buf sm si dm di port,
+Theorem C07_mdns_ip4_branch : forall c buf sm si dm di port,
   mac_ok (host_mac c) -> ip4_ok si -> mac_ok dm -> ip4_ok di -> port < 65536 ->
   bytes_ok buf -> (length buf <= 1480)%nat ->
   exists fr, send_mdns c buf (sm, si) (dm, di) port = Ok [fr] /\
     wf_udp4 (host_mac c) dm si di port port (beq buf) false fr = true.
-Proof. exact mdns4_partial. Qed.
-Print Assumptions C07_mdns_ip4_branch_partial.
+Proof. exact mdns4_wf. Qed.
+Print Assumptions C07_mdns_ip4_branch.
+
+(* UDP over IPv6 with the mandatory checksum (since fix 94fb890; a computed 0 is sent as 0xffff): any payload *)
+From PV Require Import Proofs.SendUdp6.
+Theorem C07_udp6_encapsulation : forall smac dmac sip dip sp dp p junk,
+  mac_ok smac -> mac_ok dmac -> ip6_ok sip -> ip6_ok dip -> sp < 65536 -> dp < 65536 ->
+  bytes_ok p -> (length p <= 1460)%nat -> length junk = EthMaxSize ->
+  exists fr, udp6_send smac dmac sip dip sp dp p junk = Ok [fr] /\
+    wf_udp6 smac dmac sip dip sp dp (beq p) fr = true.
+Proof. exact udp6_wf. Qed.
+Print Assumptions C07_udp6_encapsulation.
+
+Theorem C07_mdns_ip6_branch : forall c buf sm si dm di port,
+  mac_ok (host_mac c) -> ip6_ok si -> mac_ok dm -> ip6_ok di -> port < 65536 ->
+  bytes_ok buf -> (length buf <= 1460)%nat ->
+  exists fr, send_mdns c buf (sm, si) (dm, di) port = Ok [fr] /\
+    wf_udp6 (host_mac c) dm si di port port (beq buf) fr = true.
+Proof. exact mdns6_wf. Qed.
+Print Assumptions C07_mdns_ip6_branch.
+
 
 (* ================================================================ *)
 (* icmp6SendPacket with an ICMPv6 message of ANY length that fits (type, code, zero checksum field, body q):
@@ -296,41 +287,3 @@ Example C07_ra_wellformed_inhabited :
 Proof. exact ra_wf_inhabited. Qed.
 Print Assumptions C07_ra_wellformed_inhabited.
 
-(* ================================================================ *)
-(* refutation witnesses of the remaining recorded findings *)
-From PV Require Import Proofs.SendRefuted.
-
-(* finding udp6-checksum-zero: IPv6 branch of sendMDNS; well-formed except for the mandatory UDP checksum *)
-Theorem C07_udp6_checksum_refuted :
-  exists c buf sm si dm di port fr,
-    mac_ok (host_mac c) /\ ip6_ok si /\ mac_ok dm /\ ip6_ok di /\ bytes_ok buf /\
-    send_mdns c buf (sm, si) (dm, di) port = Ok [fr] /\
-    wf_udp6 (host_mac c) dm si di port port (beq buf) fr = false /\
-    wf_udp6_nocks (host_mac c) dm si di port port (beq buf) fr = true.
-Proof. exact udp6_refuted. Qed.
-Print Assumptions C07_udp6_checksum_refuted.
-
-(* finding discover-unset-ciaddr-keeps-stale-buffer-bytes *)
-Theorem C07_discover_stale_ciaddr_refuted :
-  exists c ch xid opts junk fr,
-    mac_ok (host_mac c) /\ mac_ok ch /\ length junk = EthMaxSize /\
-    send_discover c (Some ch) [] (Some xid) opts junk = Ok [fr] /\
-    wf_udp4 (host_mac c) (router_mac c) (host_ip4 c) (router_ip4 c) 68 67
-      (wf_dhcp_client ch [0;0;0;0] (Some xid) opts) false fr = false /\
-    wf_udp4 (host_mac c) (router_mac c) (host_ip4 c) (router_ip4 c) 68 67
-      (wf_dhcp_client ch (sub fr 54 4) (Some xid) opts) false fr = true.
-Proof. exact discover_stale_ciaddr_refuted. Qed.
-Print Assumptions C07_discover_stale_ciaddr_refuted.
-
-(* finding dhcp-release-without-client-and-server-id *)
-Theorem C07_release_options_refuted :
-  exists c ch cid sip cip xid junk fr,
-    mac_ok (host_mac c) /\ mac_ok ch /\ ip4_ok sip /\ ip4_ok cip /\ length junk = EthMaxSize /\
-    send_decline_release c (Some ch) cip xid [(53, [7])] junk junk = Ok [fr] /\
-    wf_udp4 (host_mac c) (router_mac c) (host_ip4 c) (router_ip4 c) 68 67
-      (wf_dhcp_client ch cip (Some xid) [(61, cid); (54, sip); (56, [110;101;116;102;105;108;116;101;114;32;114;101;108;101;97;115;101]); (53, [7])])
-      false fr = false /\
-    wf_udp4 (host_mac c) (router_mac c) (host_ip4 c) (router_ip4 c) 68 67
-      (wf_dhcp_client ch cip (Some xid) [(53, [7])]) false fr = true.
-Proof. exact release_options_refuted. Qed.
-Print Assumptions C07_release_options_refuted.
